@@ -8,7 +8,7 @@ import PhreeqcVerif.Model.Pitzer
 * `co2 c0 c1 c2 c3 c4 tk mu`                              → `C <hex>`              (value of `log_g_co2`)
 * `lg <gflag> z dha dhb mu a b <hasLlnl> aL bL bdotL lgco2 laH2O gfw` → `L <hex>` | `L none`
 * `sel <zIsZero> <n|e|w> opt…`  (`g:a:b`, `l:a`, `c`, `w`; `-` = not scanned) → `A <gflag> <dha> <dhb>`
-* `pz n mu a0 minTotal icon ic useEtheta mcb0 mcb1 mcc0 tk` / `s z M`×n / `p type i0 i1 i2 alpha etheta ethetap a0..a5`… / `end`
+* `pz n mu a0 minTotal icon ic useEtheta mcb0 mcb1 mcc0 tk patm` / `s z M`×n / `p type i0 i1 i2 alpha etheta ethetap a0..a5`… / `end`
                                                           → `PC k ln0 ln1 ln2 os p`…, `PL k <LGAMMA>`×n, `PO cosmot aw`
 * `sit n mu a0 tk` / `s z M`×n / `e <13|14> i0 i1 a0..a4`… / `end` → `PL k <sit_LGAMMA>`×n, `PO cosmot aw` -/
 namespace Driver.Gamma
@@ -36,7 +36,7 @@ structure Blk where
 
 def finishPz (b : Blk) (out : IO.FS.Stream) : IO Unit := do
   match b.head with
-  | [n, mu, a0, minT, icon, ic, ue, m0, m1, c0, tk] =>
+  | [n, mu, a0, minT, icon, ic, ue, m0, m1, c0, tk, patm] =>
     let n := n.toNat!
     let z := arr (b.sp.toList.map (·.1))
     let m := arr (b.sp.toList.map (·.2))
@@ -76,7 +76,7 @@ def finishPz (b : Blk) (out : IO.FS.Stream) : IO Unit := do
     let x : Pitzer.PzIn Float :=
       { n := n, m := m, z := z, mu := mu, a0 := fx a0, minTotal := fx minT, icon := icon == "1", ic := ic.toNat!,
         useEtheta := ue == "1", mcb0 := optF m0, mcb1 := optF m1, mcc0 := optF c0, ps := ps.toList }
-    let r := Pitzer.pitzer x
+    let r := Pitzer.pitzerP x (Pitzer.pcorrOf tk (fx patm))
     for i in [0:n] do
       out.putStrLn s!"PL {i} {hx (r.lgamma i)}"
     out.putStrLn s!"PO {hx r.cosmot} {hx r.aw}"
